@@ -92,6 +92,10 @@ pub trait Tbl:
     fn t_random(n: usize) -> Self;
     fn t_from_blocks(n: usize, b: &[u64]) -> Self;
     fn t_from_hex_string(n: usize, s: &str) -> Result<Self, ()>;
+    /// The table `blocks` obtained through one of several construction routes (direct, `clone`, `clone_from`
+    /// into a destination of another size, `Vec::clone_from`, `clone_into`, the other table type, the printed
+    /// form): every route must give the value `from_blocks` gives.  Returns the value and the route's name.
+    fn t_via_route(n: usize, blocks: &[u64], route: u64) -> (Self, &'static str);
     fn t_all_functions(n: usize) -> Box<dyn Iterator<Item = Self>>;
     fn t_iter_from(start: &Self) -> Box<dyn Iterator<Item = Self>>;
     /// an `Iterator`-method script (see iterprobe.rs) on the concrete iterator type, fresh or positioned
@@ -404,6 +408,39 @@ impl Tbl for Lut {
     fn t_from_hex_string(n: usize, s: &str) -> Result<Self, ()> {
         Lut::from_hex_string(n, s)
     }
+    fn t_via_route(n: usize, blocks: &[u64], route: u64) -> (Self, &'static str) {
+        let src = Lut::from_blocks(n, blocks);
+        // destination sizes: mostly close to n (same block count for n <= 6), sometimes anything
+        let other = match (route >> 8) % 4 {
+            0 => ((route >> 12) % 15) as usize,
+            1 => (n + 1) % 15,
+            2 => n.saturating_sub(1),
+            _ => ((route >> 12) % 7) as usize,
+        };
+        match route % 10 {
+            0..=4 => (src, "from_blocks"),
+            5 => (src.clone(), "clone"),
+            6 => {
+                let mut d = Lut::one(other);
+                d.clone_from(&src);
+                (d, "clone_from(into another size)")
+            }
+            7 => {
+                let mut v = vec![Lut::zero(other), Lut::one(other)];
+                v.clone_from(&vec![src.clone(), src]);
+                (v.pop().unwrap(), "Vec::clone_from(over another size)")
+            }
+            8 => {
+                let mut d = Lut::zero(other);
+                src.clone_into(&mut d);
+                (d, "clone_into(another size)")
+            }
+            _ => match Lut::from_hex_string(n, &src.to_hex_string()) {
+                Ok(x) => (x, "from_hex_string(to_hex_string)"),
+                Err(_) => (src, "from_blocks"),
+            },
+        }
+    }
     fn t_all_functions(n: usize) -> Box<dyn Iterator<Item = Self>> {
         Box::new(Lut::all_functions(n))
     }
@@ -486,6 +523,31 @@ impl<const N: usize, const T: usize> Tbl for StaticLut<N, T> {
     fn t_from_hex_string(n: usize, s: &str) -> Result<Self, ()> {
         assert_eq!(n, N, "harness: size dispatch");
         Self::from_hex_string(s)
+    }
+    fn t_via_route(n: usize, blocks: &[u64], route: u64) -> (Self, &'static str) {
+        assert_eq!(n, N, "harness: size dispatch");
+        let src = Self::from_blocks(blocks);
+        match route % 10 {
+            0..=5 => (src, "from_blocks"),
+            6 => {
+                #[allow(clippy::clone_on_copy)]
+                let c = src.clone();
+                (c, "clone")
+            }
+            7 => {
+                let mut d = Self::one();
+                d.clone_from(&src);
+                (d, "clone_from")
+            }
+            8 => match Self::try_from(Lut::from(src)) {
+                Ok(x) => (x, "try_from(Lut::from)"),
+                Err(_) => (src, "from_blocks"),
+            },
+            _ => match Self::from_hex_string(&src.to_hex_string()) {
+                Ok(x) => (x, "from_hex_string(to_hex_string)"),
+                Err(_) => (src, "from_blocks"),
+            },
+        }
     }
     fn t_all_functions(n: usize) -> Box<dyn Iterator<Item = Self>> {
         assert_eq!(n, N, "harness: size dispatch");
